@@ -542,7 +542,22 @@ def r5_statement_boundaries(w):
     return rs
 
 
-RULES = [r1_total_dispatch, r2_no_significant_child_dropped, r3_spelling, r4_order_and_disambiguation, r5_statement_boundaries]
+def r6_token_separation(w):
+    """= C04.R3: tokens that the lexer would fuse stay separated at the flow sites (a fused pair is another token: merged / re-nested constructs)"""
+    from rules import tokensep
+    return tokensep.rule(w, 'C01.R6')
+
+
+def r7_hash_mode(w):
+    """= C04.R4: after `#` in math the printer is in code mode (a code call printed by the math converters loses / moves its arguments)"""
+    from rules import c13
+    r = RuleResult('C01.R7', 'in math mode the child that follows a `#` is converted in Code mode at every site the printer simulation reaches', floor=6)
+    for ok, cons, key, why, loc in c13.printer_hash_mode_obligations(w):
+        (r.ok(cons, why) if ok else r.bad(cons, key, why, loc))
+    return r
+
+
+RULES = [r1_total_dispatch, r2_no_significant_child_dropped, r3_spelling, r4_order_and_disambiguation, r5_statement_boundaries, r6_token_separation, r7_hash_mode]
 for _f in RULES:
     _f.needs = ('core',)
 MATRIX_RULES = [r2_no_significant_child_dropped]
